@@ -32,7 +32,7 @@ func (c20) Budget(tier string) (int, int) {
 	return 12000, 90
 }
 func (c20) Rule() string {
-	return fmt.Sprintf("seeded histories on one ValueReader and one Buffer (plus fresh ones): validate / skip / traverse / generically decode documents of adversarial shape - one huge container (object or array) at any depth followed by n small siblings of either kind, escaped strings and keys at every nesting level and in every child, deep nesting (to 10,000), megabyte strings, wide scalar arrays, generated trees up to 400 KB - each shape at growing sizes (x1, x10, x100: a super-linear term crosses the bound at the smallest size that shows it), and 'one large document, then up to 20,000 small ones' (succeeding, failing, typed entry points on null) on the same reader. Failing calls (truncated, overflow, 10,001+ deep) sit between the others. Pool policy: hit whenever possible, eviction only between top-level calls. Measure: runtime.MemStats.TotalAlloc around each call at GOMAXPROCS=1. Oracle, evaluated at every prefix of the history: allocated <= %d B x input bytes + %d B x calls. Non-trivial: the history has >= 2 calls on the shared reader/buffer or a document >= 10 KB; distinct = distinct hashes of (operation, shape, size class, outcome) sequences.", c20K, c20C)
+	return fmt.Sprintf("seeded histories on one ValueReader and one Buffer (plus fresh ones): validate / skip / traverse / generically decode documents of adversarial shape - one huge container (object or array) at any depth followed by n small siblings of either kind, escaped strings and keys at every nesting level and in every child, deep nesting (to 10,000), megabyte strings, wide scalar arrays, generated trees up to 400 KB - each shape at growing sizes (x1, x10, x100: a super-linear term crosses the bound at the smallest size that shows it), and 'one large document, then up to 20,000 small ones' (succeeding, failing, typed entry points on null) on the same reader. Failing calls (truncated, overflow, 10,001+ deep) sit between the others. Pool policy: hit whenever possible, eviction only between top-level calls. Measure: runtime.MemStats.TotalAlloc around each call at GOMAXPROCS=1. Oracles: (1) at every prefix of the history, allocated <= %d B x input bytes + %d B x calls; (2) for one shape at sizes x1/x10/x100, bytes allocated per input byte at one size must not exceed 2x the figure at the previous size + 32 (checked when the step allocates > 1 MiB): a super-linear term with a small coefficient shows as growth of the per-byte cost long before it crosses an absolute bound. Non-trivial: the history has >= 2 calls on the shared reader/buffer or a document >= 10 KB; distinct = distinct hashes of (operation, shape, size class, outcome) sequences.", c20K, c20C)
 }
 func (c20) Assumptions() []string {
 	return []string{
@@ -42,7 +42,7 @@ func (c20) Assumptions() []string {
 	}
 }
 func (c20) Required(tier string) []string {
-	return []string{"shape-big-then-small-siblings", "shape-escapes-every-level", "shape-deep", "shape-escaped-children", "shape-large-tree", "history-large-then-many-small", "history-failing-small-docs", "A-abort", "P-evict", "doc>=100KB", "reused-buffer", "reused-reader", "history-deep-then-tiny-on-one-buffer"}
+	return []string{"shape-big-then-small-siblings", "shape-escapes-every-level", "shape-deep", "shape-escaped-children", "shape-large-tree", "history-large-then-many-small", "history-failing-small-docs", "A-abort", "P-evict", "doc>=100KB", "reused-buffer", "reused-reader", "history-deep-then-tiny-on-one-buffer", "scaling-step-checked", "shape-deep-uncapped"}
 }
 
 func repeatStr(s string, n int) []byte { return bytes.Repeat([]byte(s), n) }
@@ -146,6 +146,39 @@ func c20Shape(r *Rand, shape, size int) Doc {
 		}
 		b.WriteString("}")
 		return docOf(b.Bytes(), "shape-wide")
+	case 8: // one big row followed by small rows: [[1,1,...],[],[1],...]
+		n := size / 4
+		if n < 4 {
+			n = 4
+		}
+		sib := []string{",[]", ",[1]", ",0,[]"}[r.Intn(3)]
+		switch r.Intn(3) {
+		case 0: // big row first, many small rows after it
+			b.WriteString("[[")
+			b.Write(repeatStr("1,", n))
+			b.WriteString("1]")
+			b.Write(repeatStr(sib, r.Range(1, n/2+1)))
+			b.WriteString("]")
+		case 1: // big row first, exactly one small row after it
+			b.WriteString("[[")
+			b.Write(repeatStr("1,", n))
+			b.WriteString("1],[]]")
+		default: // small rows, then the big row last but one
+			b.WriteString("[[]")
+			b.Write(repeatStr(sib, r.Range(0, 4)))
+			b.WriteString(",[")
+			b.Write(repeatStr("1,", n))
+			b.WriteString("1],[]]")
+		}
+		return docOf(b.Bytes(), "shape-big-then-small-siblings")
+	case 9: // nesting far beyond 10,000: only the traversal functions' embedded skippers accept it
+		d := size / 2
+		if d < 1 {
+			d = 1
+		}
+		dd := deepDoc([]int{0, 2, 3}[r.Intn(3)], d, "1")
+		dd.Class = "shape-deep-uncapped"
+		return dd
 	default: // generated tree
 		cfg := randCfg(r, size)
 		cfg.maxDepth = r.Range(2, 7)
@@ -203,17 +236,22 @@ func (c20) Gen(r *Rand, sc *Scenario, tier string) {
 		}
 		sc.Cfg["deep-then-tiny-on-one-buffer"] = 1
 	case 0: // one shape at growing sizes
-		shape := r.Intn(8)
+		shape := r.Intn(10)
 		kind := pickKind()
+		if shape == 9 {
+			kind = "HandleArrayValues"
+		}
 		base := r.Range(300, 4000)
+		sc.Cfg["growing"] = 1
+		subSeed := r.Uint64() // the same sub-shape choices at every size
 		for s := base; s <= maxSize; s *= 10 {
-			add(c20Shape(r, shape, s), kind, 1)
+			add(c20Shape(NewRand(subSeed), shape, s), kind, 1)
 			if r.Chance(1, 3) {
 				ops = append(ops, Op{Kind: "evict-pool"})
 			}
 		}
 	case 1: // one large document, then many small ones on the same reader / buffer
-		shape := []int{0, 1, 6, 7, 2}[r.Intn(5)]
+		shape := []int{0, 1, 6, 7, 2, 8, 8}[r.Intn(7)]
 		kind := c20Decoders[r.Intn(4)]
 		if r.Chance(1, 5) {
 			kind = c20Walkers[r.Intn(len(c20Walkers))]
@@ -223,7 +261,7 @@ func (c20) Gen(r *Rand, sc *Scenario, tier string) {
 		if tier == "thorough" && r.Chance(1, 4) {
 			m = 20000
 		}
-		small := [][]byte{[]byte(`{"a":1}`), []byte(`[1,2]`), []byte(`{"a":{"b":[]}}`), []byte(`[{}]`), []byte(`{"a":`), []byte(`[1,`), []byte(`null`), []byte(`{}`), []byte(`[]`), []byte(`[[[]]]`), []byte(`{"\n":"\t"}`), []byte(`[1e999]`)}
+		small := [][]byte{[]byte(`[[]]`), []byte(`[0,[]]`), []byte(`{"a":[]}`), []byte(`[[],[]]`), []byte(`{"a":1}`), []byte(`[1,2]`), []byte(`{"a":{"b":[]}}`), []byte(`[{}]`), []byte(`{"a":`), []byte(`[1,`), []byte(`null`), []byte(`{}`), []byte(`[]`), []byte(`[[[]]]`), []byte(`{"\n":"\t"}`), []byte(`[1e999]`)}
 		nk := r.Range(1, 3)
 		for k := 0; k < nk; k++ {
 			s := small[r.Intn(len(small))]
@@ -238,7 +276,7 @@ func (c20) Gen(r *Rand, sc *Scenario, tier string) {
 		n := r.Range(2, 8)
 		for i := 0; i < n; i++ {
 			size := []int{200, 3000, 30000, maxSize}[r.Pick(3, 3, 2, 1)]
-			d := c20Shape(r, r.Intn(8), size)
+			d := c20Shape(r, r.Intn(9), size)
 			if r.Chance(1, 5) {
 				// failing variants: truncated, overflow at the end, too deep
 				switch r.Intn(3) {
@@ -272,6 +310,7 @@ func (c20) Exec(sc *Scenario, st *Stats) *Violation {
 	var m0, m1 runtime.MemStats
 	var totalAlloc, totalIn, calls uint64
 	nOnShared := 0
+	prevRatio, prevLen := -1.0, 0
 	for oi, op := range sc.Tasks[0] {
 		if op.Kind == "evict-pool" {
 			pool.evictAll()
@@ -397,6 +436,21 @@ func (c20) Exec(sc *Scenario, st *Stats) *Violation {
 				fmt.Fprintf(os.Stderr, "C20 op %d %s %s len=%d reps=%d ok=%v alloc=%d (%.1f B/B, %.0f B/call) cum=%d bound=%d\n", oi, op.Kind, d.Class, len(data), n, ok, delta, float64(delta)/float64(uint64(len(data))*uint64(n)+1), float64(delta)/float64(n), totalAlloc, bound)
 			}
 			st.evi("ok", b2i(ok))
+			if sc.cfg("growing") == 1 && n == 1 && len(data) > 0 {
+				// the same shape at growing sizes: bytes allocated per input byte must not grow with size
+				ratio := float64(delta) / float64(len(data))
+				if prevRatio >= 0 && len(data) >= 5*prevLen {
+					st.probe("scaling-step-checked")
+					if c20debug {
+						fmt.Fprintf(os.Stderr, "C20SCALE %s %s len %d->%d ratio %.1f->%.1f\n", op.Kind, d.Class, prevLen, len(data), prevRatio, ratio)
+					}
+					if ratio > 2*prevRatio+32 && delta > 1<<20 {
+						return &Violation{Class: "superlinear-scaling", Task: 0, Op: oi, Sig: "C20/superlinear-scaling/" + op.Kind + "/" + d.Class,
+							Detail: fmt.Sprintf("%s on shape %s: %.1f bytes allocated per input byte at %d bytes, %.1f at %d bytes - cost per byte grows with size", op.Kind, d.Class, prevRatio, prevLen, ratio, len(data))}
+					}
+				}
+				prevRatio, prevLen = ratio, len(data)
+			}
 			if totalAlloc > bound {
 				return &Violation{Class: "superlinear-allocation", Task: 0, Op: oi, Sig: "C20/superlinear-allocation/" + op.Kind + "/" + d.Class,
 					Detail: fmt.Sprintf("after call %d (%s x%d on a %d-byte document of class %s, ok=%v): %d bytes allocated so far for %d input bytes in %d calls; bound %d*bytes + %d*calls = %d. This step alone allocated %d bytes = %.1f per input byte", oi, op.Kind, n, len(data), d.Class, ok, totalAlloc, totalIn, calls, c20K, c20C, bound, delta, float64(delta)/float64(uint64(len(data))*uint64(n)+1))}
